@@ -63,7 +63,7 @@ func checkC06(c *Ctx) {
 	// ---- C06.flagdef ----
 	for _, pk := range []struct {
 		pkg, fp string
-		mask  int64
+		mask    int64
 	}{{"dh/x25519", "math/fp25519", 127}, {"dh/x448", "math/fp448", -1}} {
 		sh := p.Func(pk.pkg, "", "Shared")
 		iv := p.Func(pk.pkg, "Key", "isValidPubKey")
